@@ -115,6 +115,7 @@ class Resolver:
             return cache
         res: dict[str, list[ClassInfo]] = {}
         fn._local_types = res  # type: ignore[attr-defined]
+        hits_lt = getattr(self, '_guard_hits', 0)
         for p in fn.params:
             ts = self.classes_of_annotation(fn.param_annotation(p), fn.module)
             if ts:
@@ -145,6 +146,12 @@ class Resolver:
                             ts = self.expr_types(it.context_expr, fn)
                             if ts and it.optional_vars.id not in res:
                                 res[it.optional_vars.id] = ts
+        if getattr(self, '_guard_hits', 0) != hits_lt:
+            # typed while one of the calls it depends on was still being resolved: provisional, compute again next time
+            try:
+                del fn._local_types  # type: ignore[attr-defined]
+            except AttributeError:
+                pass
         return res
 
     def expr_types(self, e: ast.AST, fn: FuncInfo, element: bool = False) -> list[ClassInfo]:
@@ -184,6 +191,9 @@ class Resolver:
                 for t in self.classes_of_annotation(getattr(cal.node, 'returns', None), cal.module):
                     if t not in out:
                         out.append(t)
+            if not out and isinstance(e.func, ast.Attribute) and e.func.attr in ('pop', 'get', 'values', 'popleft', 'copy', 'setdefault', 'popitem'):
+                # element of a typed container: `self.requests.pop(ticket)`, `self.requests.values()`
+                return self.expr_types(e.func.value, fn, element=True)
             return out
         if isinstance(e, ast.Subscript):
             return self.expr_types(e.value, fn, element=True)
@@ -200,9 +210,23 @@ class Resolver:
         got = self._callees_cache.get(id(call))
         if got is not None:
             return got
-        self._callees_cache[id(call)] = []      # recursion guard
-        res = self._callees(call, fn)
-        self._callees_cache[id(call)] = res
+        prog = self.__dict__.setdefault('_in_progress', set())
+        if id(call) in prog:
+            # resolving this call needs the types of the locals, and typing the locals needs this call (`x = self.f(); x.m()` asked
+            # for `self.f` first): answer "unknown" for now and remember that the answers built on it are provisional
+            self._guard_hits = getattr(self, '_guard_hits', 0) + 1
+            return []
+        prog.add(id(call))
+        hits0 = getattr(self, '_guard_hits', 0)
+        try:
+            res = self._callees(call, fn)
+        finally:
+            prog.discard(id(call))
+        if getattr(self, '_guard_hits', 0) == hits0 or not prog:
+            # nothing provisional went into it (or this is the outermost question: by now everything it asked for is settled)
+            if getattr(self, '_guard_hits', 0) != hits0:
+                res = self._callees(call, fn)
+            self._callees_cache[id(call)] = res
         return res
 
     def _callees(self, call: ast.Call, fn: FuncInfo) -> list[FuncInfo]:
@@ -253,6 +277,8 @@ class Resolver:
                     init = repo.lookup_method(c, '__init__')
                     return [init] if init is not None else []
                 c = repo.resolve_class('.'.join(ch[:-1]), fn.module) if len(ch) > 1 else None
+                if c is not None and ch[0] in self.local_types(fn) and self.expr_types(f.value, fn):
+                    c = None        # a typed local shadows a class / module path of the same spelling (`transfer.state.pause()`)
                 if c is not None and ch[0] not in ('self', 'cls'):
                     m = repo.lookup_method(c, name)
                     return [m] if m is not None else []
